@@ -55,7 +55,7 @@ ENGINES.update({
         "configs": {"quick": [
             mapcfg("map_or_qc.cfg", 1, 2, INV_MAP + ["ValsOK", "ConvergeReads", "MergeComm", "MergeIdem", "MergeAssoc", "ValidateMergeOK"]),
             mapcfg("map_or_q3.cfg", 1, 1, timeout=1200),
-            mapcfg("map_or_qreset.cfg", 1, 2, INV_MAP + ["ResetLaws"], reset=True),
+            mapcfg("map_or_qreset.cfg", 2, 2, INV_MAP + ["ResetLaws"], reset=True),
         ], "thorough": []},
         "traces": {"quick": [], "thorough": []},
     },
@@ -209,6 +209,7 @@ ENGINES["map_map_mv"]["configs"]["quick"] += [mapcfg("map_map_mv_s_samectx.cfg",
 
 # ---- misuse configs (C17, second half): replicas 1 and 2 edit through ONE actor; only validate_merge is judged ----
 ENGINES["orswot"]["configs"]["quick"] += [orcfg("orswot_misuse.cfg", flags=("--vm-only", "--shared-actor"), inv=["TypeOK", "ValidateMergeFlags", "ValidateMergeSym"])]
+ENGINES["orswot"]["configs"]["quick"] += [orcfg("orswot_misuse3.cfg", flags=("--vm-only", "--shared-actor"), inv=["TypeOK", "ValidateMergeFlags", "ValidateMergeSym"])]
 ENGINES["map_or"]["configs"]["quick"] += [{"cfg": "map_or_misuse.cfg", "module": "MC_Map.tla", "flags": ["--vm-only", "--shared-actor", "--m", "2", "--k", "2"], "invariants": ["TypeOK"]}]
 ENGINES["map_mv"]["configs"]["quick"] += [{"cfg": "map_mv_misuse.cfg", "module": "MC_Map.tla", "flags": ["--vm-only", "--shared-actor", "--m", "1", "--k", "2"], "invariants": ["TypeOK"]}]
 
